@@ -118,7 +118,10 @@ def _text_oracle(args, obs):
     elif cls[0] == "wf":
         ref = RX.to_ref(cls[1])
         judge_language(ref, obs, fails, tags, text)
-    # ill-formed / undocumented text that the library accepts: lenient behaviour is never flagged
+    elif cls[0] == "ill" and RX.must_refuse(text):
+        fails.append({"kind": "verdict", "op": "Regex", "tags": tags + ["ill_formed_accepted"],
+                      "detail": "ill-formed %r (%s) is accepted instead of MisformedRegexError" % (text, cls[1])})
+    # undocumented text, and a binary operator without its right operand: lenient behaviour is never flagged
     return cls[0] == "wf" and len(text) >= 3, fails, {"text": text, "class": cls[0]}
 
 
